@@ -21,5 +21,6 @@
 /* encoder side: header size for a (delta, length) pair */
 #define EXTSZ(v) ((v) < 13u ? 0u : (v) < 269u ? 1u : 2u)
 #define HDRSZ(d, l) (1u + EXTSZ((uint32_t)(d)) + EXTSZ((uint32_t)(l)))
+#define MAXOPTLEN 65804u   /* largest encodable value length: 0xFFFF + 269 */
 #define NIB(v) ((v) < 13u ? (v) : (v) < 269u ? 13u : 14u)
 #endif
